@@ -12,6 +12,7 @@ import (
 	"runtime/debug"
 	"strings"
 	"sync"
+	"syscall"
 	"time"
 
 	"grol.io/grol/object"
@@ -331,6 +332,10 @@ func c09ChildPrograms(kind string, quick bool) []c09ChildProg {
 			c09P("eval-deep-source", `eval("(" * 1000000 + "1" + ")" * 1000000)`),
 			c09P("unjson-deep", `unjson("[" * 1000000 + "]" * 1000000)`),
 			c09P("unjson-deep-map", `unjson("{\"a\":" * 1000000 + "1" + "}" * 1000000)`),
+			c09P("unjson-loop", `unjson("for true { }")`),
+			c09P("unjson-recursion", `unjson("func r(n) { r(n + 1) }; r(0)")`),
+			c09P("unjson-growth", `unjson("a = [1, 2, 3, 4, 5, 6, 7, 8, 9]; for 60 { a = a + a }")`),
+			c09P("eval-growth", `eval("a = [1, 2, 3, 4, 5, 6, 7, 8, 9]; for 60 { a = a + a }")`),
 			c09P("read-then-loop", "l = read(); for true { }"),
 			c09P("value-nesting-print", "a = []; for 100000000 { a = [a] }; println(len(str(a)))"),
 			c09P("value-nesting-compare", "a = []; b = []; for 100000000 { a = [a]; b = [b] }; a == b"),
@@ -387,10 +392,13 @@ func c09Child(args []string) int {
 		x := newSess(sessCfg{maxDepth: p.maxDepth})
 		x.opts.MaxDuration = time.Second
 		fmt.Printf("C09START %s\n", p.name)
-		t0 := time.Now()
 		src := p.gen()
+		// CPU time of this process (not wall-clock time, which stretches when the machine is loaded): the evaluator is
+		// CPU bound, so an evaluation that goes on long after its deadline shows as CPU time; one that blocks
+		// without using CPU is caught by the parent's watchdog
+		cpu0 := c09CPU()
 		r := x.step(src)
-		el := time.Since(t0)
+		el := c09CPU() - cpu0
 		class := "value"
 		switch {
 		case r.panicked:
@@ -413,6 +421,14 @@ func c09Child(args []string) int {
 	}
 	fmt.Println("C09END")
 	return 0
+}
+
+func c09CPU() time.Duration {
+	var ru syscall.Rusage
+	if err := syscall.Getrusage(syscall.RUSAGE_SELF, &ru); err != nil {
+		return 0
+	}
+	return time.Duration(ru.Utime.Nano() + ru.Stime.Nano())
 }
 
 func c09Children(c *core.Ctx, bounds *[]string) {
@@ -465,7 +481,7 @@ func c09Children(c *core.Ctx, bounds *[]string) {
 			timedOut := false
 			select {
 			case err = <-done:
-			case <-time.After(60 * time.Second): // watchdog, far beyond deadline + 5 s
+			case <-time.After(180 * time.Second): // watchdog, far beyond deadline + 5 s even on a loaded machine
 				_ = cmd.Process.Kill()
 				err = <-done
 				timedOut = true
@@ -520,7 +536,7 @@ func c09Children(c *core.Ctx, bounds *[]string) {
 				}
 				if ms > 6000+1000*srcmb { // deadline + 5 s + 1 s per MiB of source text (parsing and printing are outside the deadline)
 					outcome = "late"
-					c.Report(&core.Viol{Class: j.kind + ":returns-late", Detail: fmt.Sprintf("%s returned after %d ms with a 1 s deadline", j.prog.name, ms), Case: cs, FindText: j.prog.name})
+					c.Report(&core.Viol{Class: j.kind + ":returns-late", Detail: fmt.Sprintf("%s used %d ms of CPU time with a 1 s deadline", j.prog.name, ms), Case: cs, FindText: j.prog.name})
 				}
 				if next != "42" {
 					outcome = "unusable"
@@ -535,7 +551,7 @@ func c09Children(c *core.Ctx, bounds *[]string) {
 		}(j)
 	}
 	wg.Wait()
-	*bounds = append(*bounds, fmt.Sprintf("child processes (ulimit -v 8GiB, 1 s deadline, 60 s watchdog): %d deeply nested sources / default-depth recursions; %d growth programs (string*int, array*int, int:int with magnitudes around the budget, 2^31, 2^60, 2^62, 2^63-1 and wrapping products; doubling loops with + and *, join/split/runes, merge; non-terminating loops and sleep) x GOMEMLIMIT %v MiB: the child must survive, return within deadline+5 s, stay usable and keep peak RSS <= 4x limit + 64 MiB", len(c09ChildPrograms("deep", c.Quick())), len(c09ChildPrograms("mem", c.Quick())), limits))
+	*bounds = append(*bounds, fmt.Sprintf("child processes (ulimit -v 8GiB, 1 s deadline, CPU-time oracle, 180 s watchdog): %d deeply nested sources / default-depth recursions; %d growth programs (string*int, array*int, int:int with magnitudes around the budget, 2^31, 2^60, 2^62, 2^63-1 and wrapping products; doubling loops with + and *, join/split/runes, merge; non-terminating loops and sleep) x GOMEMLIMIT %v MiB: the child must survive, use no more than deadline+5 s (+1 s per MiB of source) of CPU time, stay usable and keep peak RSS <= 4x limit + 64 MiB", len(c09ChildPrograms("deep", c.Quick())), len(c09ChildPrograms("mem", c.Quick())), limits))
 }
 
 // c09CLI runs the grol command itself: the limits given on the command line must be in force in every mode.
@@ -589,7 +605,7 @@ func c09CLI(c *core.Ctx, bounds *[]string) {
 				cmd.Dir = dir
 				var buf bytes.Buffer
 				cmd.Stdout, cmd.Stderr = &buf, &buf
-				err := runWithTimeout(cmd, 60*time.Second)
+				err := runWithTimeout(cmd, 180*time.Second)
 				out := buf.String()
 				cs := core.Case{Kind: "cli", Cfg: fmt.Sprintf("-max-depth %d mode=%s", md, mode), Data: p.src}
 				outcome := "limit-enforced"
@@ -652,9 +668,13 @@ func c09CLI(c *core.Ctx, bounds *[]string) {
 			var buf bytes.Buffer
 			cmd.Stdout, cmd.Stderr = &buf, &buf
 			t0 := time.Now()
-			err := runWithTimeout(cmd, 30*time.Second)
+			err := runWithTimeout(cmd, 120*time.Second)
 			outcome := "returns"
-			if err == errTimeout || time.Since(t0) > 6*time.Second {
+			cpu := time.Duration(0)
+			if cmd.ProcessState != nil {
+				cpu = cmd.ProcessState.UserTime() + cmd.ProcessState.SystemTime()
+			}
+			if err == errTimeout || cpu > 6*time.Second {
 				outcome = "does-not-return"
 				c.Report(&core.Viol{Class: "cli:deadline-ignored", Detail: fmt.Sprintf("grol %s still running after %v", strings.Join(args, " "), time.Since(t0)), Case: core.Case{Kind: "cli", Cfg: "-max-duration " + d + " mode=" + mode, Data: src}})
 			}
@@ -717,7 +737,7 @@ func init() {
 		Assume:      []string{"wall-clock and RSS oracles use generous constants (deadline + 5 s, 4 x limit + 64 MiB): they only detect gross violations", "cancellation is modelled by a counting context; real timers are only used in part (3)"},
 		QuickCap:    100 * time.Second,
 		ThoroughCap: 20 * time.Minute,
-		HangLimit:   90 * time.Second,
+		HangLimit:   300 * time.Second,
 		Run:         runC09,
 		Replay: func(c *core.Ctx, cs core.Case) *core.Viol {
 			if cs.Kind == "cancel" {
